@@ -171,6 +171,9 @@ def from_matrix_cases(rng, tier):
         validate = rng.random() < 0.7
         try:
             arr = numpy.array(a) if a else numpy.zeros((0, 0), dtype=int)
+            if a and arr.ndim == 2 and arr.dtype != object and ((arr == 0) | (arr == 1)).all() and rng.random() < 0.4:
+                # a binary matrix is a binary matrix whatever its numpy dtype (unsigned, boolean, float ...)
+                arr = arr.astype(rng.choice([numpy.uint8, numpy.bool_, numpy.float64, numpy.int8, numpy.uint64, numpy.float32]))
             g = cls.from_adjacency_matrix(arr, None if names is None else list(names), validate=validate)
             pool = (g.get_node_names() + ['zz'])[:6]
             code, h = 0, C.hash_tokens(H.observe(g, kind, pool, [], []))
